@@ -1,4 +1,5 @@
 import WebPkg.Proofs.PathUrl
+import WebPkg.Proofs.DirWalk
 import WebPkg.Properties.C03
 import WebPkg.Properties.C04
 import WebPkg.Properties.C05
@@ -51,5 +52,43 @@ theorem integrity_block_keeps_bundle (H512 : Bytes → Bytes) (sign : Bytes → 
     ∃ blockBytes, out = blockBytes ++ file := by
   obtain ⟨bb, _, h1, _⟩ := C07.output_layout H512 sign edVerify pk file out h
   exact ⟨bb, h1⟩
+
+/-! ### the directory walk of `gen-bundle -dir` (Model/DirWalk.lean), for every well-formed file-system tree -/
+open WebPkg.DirWalk in
+/-- T8: the exchanges `fromDir` creates are exactly those the property asks for: per regular file one 200 exchange at its own URL
+    with its own bytes, or, for a file called index.html, the redirect at its own URL plus its bytes at the directory's slash URL -/
+theorem dir_walk_characterisation (base : Bytes) (t : DirWalk.Node) (hwf : DirWalk.WF1 t) (e : DirWalk.Exch) :
+    e ∈ DirWalk.walk base [46] t ↔
+      (∃ pc ∈ DirWalk.files t, DirWalk.basename pc.1 ≠ DirWalk.idx ∧ e = ⟨pathToURL base pc.1, .body pc.2⟩) ∨
+      (∃ pc ∈ DirWalk.files t, DirWalk.basename pc.1 = DirWalk.idx ∧ e = ⟨pathToURL base pc.1, .redirect⟩) ∨
+      (∃ pc ∈ DirWalk.files t, DirWalk.basename pc.1 = DirWalk.idx ∧ e = ⟨DirWalk.dirURL base (DirWalk.dirname pc.1), .body pc.2⟩) :=
+  DirWalk.walk_characterisation base t hwf e
+
+/-- T9: "for every regular file, exactly one exchange whose URL is the base URL joined with the file's percent-encoded relative
+    path and whose body is the file's bytes" -/
+theorem dir_walk_each_file_exactly_once (base : Bytes) (t : DirWalk.Node) (hb : base.getLast? = some 47) (hwf : DirWalk.WF t)
+    (p c : Bytes) (hpc : (p, c) ∈ DirWalk.files t) (hn : DirWalk.basename p ≠ DirWalk.idx) :
+    (DirWalk.walk base [46] t).filter (fun e => e.url = pathToURL base p) = [⟨pathToURL base p, .body c⟩] :=
+  DirWalk.each_file_exactly_once base t hb hwf p c hpc hn
+
+/-- T10: "a file named index.html being delivered at its directory's slash URL, with its own URL redirecting there" -/
+theorem dir_walk_index_html (base : Bytes) (t : DirWalk.Node) (hb : base.getLast? = some 47) (hwf : DirWalk.WF t)
+    (p c : Bytes) (hpc : (p, c) ∈ DirWalk.files t) (hi : DirWalk.basename p = DirWalk.idx) :
+    (DirWalk.walk base [46] t).filter (fun e => e.url = pathToURL base p) = [⟨pathToURL base p, .redirect⟩] ∧
+    (DirWalk.walk base [46] t).filter (fun e => e.url = DirWalk.dirURL base (DirWalk.dirname p))
+      = [⟨DirWalk.dirURL base (DirWalk.dirname p), .body c⟩] :=
+  DirWalk.index_html_delivered_at_directory base t hb hwf p c hpc hi
+
+/-- T11: no two exchanges of the walk share a URL (nothing is merged or shadowed in the bundle's index) -/
+theorem dir_walk_urls_distinct (base : Bytes) (t : DirWalk.Node) (hb : base.getLast? = some 47) (hwf : DirWalk.WF t) :
+    ((DirWalk.walk base [46] t).map (·.url)).Nodup := DirWalk.walk_urls_distinct base t hb hwf
+
+/-- T12: one exchange per regular file plus one per directory that has an index.html — nothing else -/
+theorem dir_walk_length (base : Bytes) (t : DirWalk.Node) (hwf : DirWalk.WF1 t) :
+    (DirWalk.walk base [46] t).length = (DirWalk.files t).length + (DirWalk.files t).countP (fun pc => DirWalk.basename pc.1 == DirWalk.idx) :=
+  DirWalk.walk_length base t hwf
+
+/-- the hypotheses are satisfiable by a non-trivial tree (root with index.html and a.txt, sub/ with `h#x` and index.html) -/
+example : DirWalk.WF DirWalk.ex_tree ∧ DirWalk.ex_base.getLast? = some 47 ∧ (DirWalk.walk DirWalk.ex_base [46] DirWalk.ex_tree).length = 6 := by decide
 
 end WebPkg.C20
